@@ -200,3 +200,21 @@ CONTRACTS.append(_scan_contract("plain", "none", [], "substr(line, _end_idx, len
 # "(default: X)" / "(default: X)." : the closing parenthesis (and full stop) are cut off before the scan
 CONTRACTS.append(_scan_contract("paren", "int", ["default_end_offset == -1 or default_end_offset == -2", "length(line) + default_end_offset >= 0"],
                                 "substr(line, _end_idx, length(line) + default_end_offset)"))
+
+
+# --------------------------------------------------------------------------------------------------------------
+# location_within (cdd/shared/pure_utils.py), the announce search in front of extract_default's scanner: for ANY comparison
+# function and any candidates, what it returns is (-1, -1, None) or (i, end, elem) with 0 <= i < len(container) + 1 and
+# end == i + len(elem) >= i -- so the scanner starts at or after the announce, never at a negative offset.  (That end does not
+# exceed len(container) depends on the comparison function and is NOT claimed: it is a precondition of the scanner contract.)
+CONTRACTS.append(
+    Contract(
+        "cdd.shared.pure_utils:location_within",
+        params={"container": "str", "iterable": "opaque", "cmp": "opaque"},
+        ensures=[
+            "(result[0] == -1 and result[1] == -1) or (result[0] >= 0 and result[0] <= length(container) and result[1] >= result[0])",
+        ],
+        loops={0: {"invariant": ["container_len == length(container)"]}, 1: {"invariant": ["container_len == length(container)", "elem_len >= 0"]}},
+        pure_results={"cmp": "bool"},
+    )
+)
